@@ -75,6 +75,7 @@ type run struct {
 	lmode       string
 	fetchLog    [][2]any        // block fetches of the current step: [block id, answered]
 	fetchMemo   map[hotstuff.Hash]bool // one answer per block and step
+	forkCount   int
 	silentAfter hotstuff.ID // scenario: this replica falls silent once the others reach silentView
 	silentView  int
 }
@@ -412,6 +413,62 @@ func (r *run) someBlock() *hotstuff.Block {
 	return r.blocks[ids[k]]
 }
 
+// forgeShape: the k-th way (cyclically) of writing a certificate for b that no quorum stands behind, from material a Byzantine
+// replica really has: signature from {none, its own signature once / repeated up to the quorum size, the signature of a genuine
+// certificate of another block, genuine votes it has seen plus its own (below the quorum)}, view label from {the block's view, 0,
+// the block's view + 1}.
+func (r *run) forgeShape(b *hotstuff.Block, k int) hotstuff.QuorumCert {
+	by := r.byzIDs()
+	views := []hotstuff.View{b.View(), 0, b.View() + 1}
+	view := views[k%len(views)]
+	var sig hotstuff.QuorumSignature
+	switch (k / len(views)) % 5 {
+	case 0: // none
+	case 1, 2: // own signature, once or repeated
+		var sigs []*crypto.ECDSASignature
+		want := 1
+		if (k/len(views))%5 == 2 {
+			want = r.q
+		}
+		for len(sigs) < want {
+			s, err := r.node(by[len(sigs)%len(by)]).Auth.Sign(b.ToBytes())
+			if err != nil {
+				break
+			}
+			m, ok := s.(crypto.Multi[*crypto.ECDSASignature])
+			if !ok {
+				break
+			}
+			sigs = append(sigs, m[0])
+		}
+		if len(sigs) > 0 {
+			sig = crypto.NewMulti(sigs...)
+		}
+	case 3: // genuine signatures, for another block
+		for i := len(r.qcPool) - 1; i >= 0; i-- {
+			if r.qcPool[i].Signature() != nil && r.qcPool[i].BlockHash() != b.Hash() {
+				sig = r.qcPool[i].Signature()
+				break
+			}
+		}
+	case 4: // below the quorum: its own vote(s) only
+		var sigs []hotstuff.QuorumSignature
+		for _, id := range by {
+			if pc, err := r.node(id).Auth.CreatePartialCert(b); err == nil {
+				sigs = append(sigs, pc.Signature())
+			}
+		}
+		if len(sigs) >= 2 {
+			if s, err := r.node(by[0]).Auth.Combine(sigs...); err == nil {
+				sig = s
+			}
+		} else if len(sigs) == 1 {
+			sig = sigs[0]
+		}
+	}
+	return hotstuff.NewQuorumCert(sig, view, b.Hash())
+}
+
 func (r *run) forgeQC(b *hotstuff.Block) hotstuff.QuorumCert {
 	// certificates assembled only from what the adversary can really produce: its own keys (possibly
 	// repeated), votes it has seen, a relabelled genuine certificate
@@ -573,6 +630,16 @@ func (r *run) coopMaybe() bool {
 	return false
 }
 
+// forkOpportunity: some honest replica is in a view >= 4 led by a Byzantine replica and has not voted in it
+func (r *run) forkOpportunity() bool {
+	for _, x := range r.honest() {
+		if xv := x.VS.View(); xv >= 4 && r.byz[r.lr.GetLeader(xv)] && x.Voter.VerifLastVotedView() < xv {
+			return true
+		}
+	}
+	return false
+}
+
 func (r *run) adversary() {
 	by := r.byzIDs()
 	if len(by) == 0 {
@@ -594,10 +661,18 @@ func (r *run) adversary() {
 		return s
 	}
 	mv := r.maxHonestView()
-	if r.coopMaybe() {
+	if !r.forkOpportunity() && r.coopMaybe() {
 		return
 	}
-	switch a := r.rng.Intn(11); {
+	a := r.rng.Intn(11)
+	// a replica that can vote right now in a view led by a Byzantine replica is an opportunity for the fork move (below)
+	for _, x := range hon {
+		if xv := x.VS.View(); xv >= 4 && r.byz[r.lr.GetLeader(xv)] && x.Voter.VerifLastVotedView() < xv && r.rng.Intn(2) == 0 {
+			a = 0
+			break
+		}
+	}
+	switch {
 	case a == 10: // prime, then replay altered: a genuine certificate is shown to a replica, directly followed by a copy with one field changed
 		x := hon[r.rng.Intn(len(hon))]
 		gen, alt := hotstuff.NewSyncInfo(), hotstuff.NewSyncInfo()
@@ -634,9 +709,58 @@ func (r *run) adversary() {
 			view = hotstuff.View(max(1, mv+r.rng.Intn(5)-1))
 		}
 		var qc hotstuff.QuorumCert
-		if len(r.qcPool) > 0 && r.rng.Intn(5) > 0 {
+		// the fork move needs a replica that can vote now: in a view led by a Byzantine replica and not yet voted in it
+		var forkTargets []*hx.Node
+		for _, x := range hon {
+			if xv := x.VS.View(); xv >= 4 && r.byz[r.lr.GetLeader(xv)] && x.Voter.VerifLastVotedView() < xv {
+				forkTargets = append(forkTargets, x)
+			}
+		}
+		switch {
+		case len(forkTargets) > 0 && r.rng.Intn(3) > 0:
+			// a fork behind one proposal: three well-formed blocks F <- G <- H in consecutive views on an OLD genuine certificate,
+			// which nobody ever saw (replicas obtain them through block fetch; only the proposal's own certificate is verified),
+			// each carrying a "certificate" for its parent that no quorum stands behind, all forged the same way; the proposal I
+			// extends H. A replica that accepts the forgery commits F, which conflicts with what is committed.
+			// Every forgery shape is tried, one proposal after the other (a refused proposal does not use up the replica's vote).
+			// (the proposal is for the view a target replica is in; F hangs on a certificate at least four views older, genesis included)
+			tgt := forkTargets[r.rng.Intn(len(forkTargets))]
+			view = tgt.VS.View()
+			id = r.lr.GetLeader(view)
+			old := hotstuff.NewQuorumCert(nil, 0, hotstuff.GetGenesis().Hash())
+			var olds []hotstuff.QuorumCert
+			for _, q := range r.qcPool {
+				if q.Signature() != nil && q.View()+4 <= view {
+					olds = append(olds, q)
+				}
+			}
+			if len(olds) > 0 && r.rng.Intn(3) > 0 {
+				old = olds[r.rng.Intn(len(olds))]
+			}
+			mkb := func(parent hotstuff.Hash, q hotstuff.QuorumCert, v hotstuff.View) *hotstuff.Block {
+				r.nextCmd[9]++
+				b := hotstuff.NewBlock(parent, q, &clientpb.Batch{Commands: []*clientpb.Command{{ClientID: 9, SequenceNumber: uint64(r.nextCmd[9]), Data: []byte{9}}}}, v, id)
+				r.regBlock(b)
+				for _, x := range by {
+					r.node(x).BC.Store(b)
+				}
+				return b
+			}
+			for shape := 0; shape < 15; shape++ {
+				f := mkb(old.BlockHash(), old, view-3)
+				g := mkb(f.Hash(), r.forgeShape(f, shape), view-2)
+				h := mkb(g.Hash(), r.forgeShape(g, shape), view-1)
+				i := mkb(h.Hash(), r.forgeShape(h, shape), view)
+				r.logByz("fork", id, []envelope{{from: id, to: tgt.ID, msg: hotstuff.ProposeMsg{ID: id, Block: i}}})
+				r.deliverIdx(len(r.net) - 1)
+				if tgt.VS.View() != view || tgt.Voter.VerifLastVotedView() >= view {
+					break // the replica moved on (it accepted one of them)
+				}
+			}
+			return
+		case len(r.qcPool) > 0 && r.rng.Intn(5) > 0:
 			qc = r.qcPool[len(r.qcPool)-1-r.rng.Intn(min(len(r.qcPool), 4))] // a recent genuine certificate
-		} else {
+		default:
 			qc = r.forgeQC(r.someBlock())
 		}
 		mk := func(tag int) hotstuff.ProposeMsg {
@@ -851,7 +975,7 @@ func protoCmd(args []string) error {
 		if err != nil {
 			return err
 		}
-		r := &run{o: o, rng: rng, n: n, q: hotstuff.QuorumSize(n), nodes: nodes, byz: byz, lr: scriptLR{n: n, script: &script}, script: &script, fixedLeader: fixedLeader, lmode: lmode,
+		r := &run{forkCount: ri, o: o, rng: rng, n: n, q: hotstuff.QuorumSize(n), nodes: nodes, byz: byz, lr: scriptLR{n: n, script: &script}, script: &script, fixedLeader: fixedLeader, lmode: lmode,
 			agg: rs == "fasthotstuff", blockID: map[hotstuff.Hash]int{hotstuff.GetGenesis().Hash(): 0},
 			blocks: map[int]*hotstuff.Block{0: hotstuff.GetGenesis()}, nextCmd: map[int]int{}, fetchOK: 60 + rng.Intn(41),
 			coop: rng.Intn(2) == 0, coopDone: map[int]bool{}, bytesID: map[int]string{}}
@@ -959,6 +1083,10 @@ func protoCmd(args []string) error {
 			r.isoVictim = 0
 			if ep := r.maxConnectedView(); ep < len(isoPlan) {
 				r.isoVictim = hotstuff.ID(isoPlan[ep])
+			}
+			if !silent && len(r.byz) > 0 && rng.Intn(8) == 0 && r.forkOpportunity() {
+				r.adversary()
+				continue
 			}
 			if !silent {
 				r.coopMaybe()
